@@ -178,7 +178,8 @@ class ExactClassifier(BaseEstimator):
         y = np.asarray(y).astype(float).reshape(-1)
         w = np.ones(len(y)) if sample_weight is None else np.asarray(sample_weight, dtype=float).reshape(-1)
         if len(x) != len(y) or len(w) != len(y):
-            raise HarnessError("oracle received arguments of different lengths")
+            # a malformed request is the caller's fault: answer like any sklearn estimator would
+            raise ValueError(f"Found input variables with inconsistent numbers of samples: {[len(x), len(y), len(w)]}")
         table = {}
         ties = 0
         for v in sorted({_key(t) for t in x}, key=lambda t: (isinstance(t, str), t)):
